@@ -61,7 +61,8 @@ func linOf(v ssa.Value, depth int) linForm {
 
 // exhaustsLinear: does `l op r` say "the data left equals this fragment"?  Recognised shapes, with L = len(p)
 // of a parameter, O an offset phi (0, then O+F), R a remaining phi (L, then R-F) and F any value:
-//   R - F == 0        L - O - F == 0        (and the one-sided forms O+F >= L, L-O <= F, R <= F)
+//
+//	R - F == 0        L - O - F == 0        (and the one-sided forms O+F >= L, L-O <= F, R <= F)
 func exhaustsLinear(l, r ssa.Value, op string) bool {
 	d := linOf(l, 0).add(linOf(r, 0), -1) // l - r
 	if d.k != 0 {
